@@ -5,6 +5,7 @@ import (
 	"errors"
 	"fmt"
 	"io"
+	"math"
 	"sort"
 	"time"
 
@@ -237,7 +238,9 @@ func (e *Encoder) timeToUint32(t *time.Time) (uint32, uint32, error) {
 		return 0, 0, nil
 	}
 
-	if t.Unix() < 0 || t.UnixNano() < 0 {
+	// The on-disk field is 32 bits of seconds: a time it cannot hold is
+	// refused, not truncated.
+	if t.Unix() < 0 || t.Unix() > math.MaxUint32 {
 		return 0, 0, ErrInvalidTimestamp
 	}
 
